@@ -397,6 +397,12 @@ func runRecipe(recipe string, o *vh.Out) error {
 			return err
 		}
 		runParsed(recipe, p, o)
+	case "emb":
+		p, err := astx.ParseEmbedded(fs[1])
+		if err != nil {
+			return err
+		}
+		runParsed(recipe, p, o)
 	case "mut":
 		seed, _ := strconv.ParseUint(fs[2], 10, 64)
 		path := filepath.Join(astx.Repo(), fs[1])
@@ -458,6 +464,9 @@ func main() {
 			o.Count("skipped_" + strings.SplitN(recipe, "|", 2)[0] + "_parse_error")
 		}
 	}
+	for _, name := range astx.EmbeddedFiles() {
+		try("emb|" + name)
+	}
 	xgo, gofiles := astx.CorpusFiles()
 	for _, p := range xgo {
 		try("file|" + rel(p))
@@ -476,7 +485,7 @@ func main() {
 		}
 		try("file|" + rel(p))
 	}
-	nMut := len(xgo)
+	nMut := len(xgo) / 2
 	if thorough {
 		nMut = len(xgo) * 6
 	}
